@@ -15,7 +15,7 @@ import (
 const c01Width = 2
 
 type c01Node struct {
-	op      int // -1 leaf, 0 Scale, 1 Add, 2 Sub, 3 Mul
+	op      int // -1 leaf, 0 Scale, 1 Add, 2 Sub, 3 Mul, 4 CatSlice: concat(a,b)[1:3] = (a[1], b[0])
 	a, b    int
 	c       float64
 	tracked bool
@@ -29,8 +29,11 @@ func c01Build(tag string, leaves []T, nodes []c01Node, K int) ([]T, []c01Node) {
 	ns := append([]c01Node{}, nodes...)
 	for s := 0; s < K; s++ {
 		n := len(ts)
-		op := vrt.Concretize(vrt.Int(vrt.Nm(tag+"op", s), 0, 3))
-		if vrt.Param("ops") == 1 {
+		op := vrt.Concretize(vrt.Int(vrt.Nm(tag+"op", s), 0, 4))
+		switch vrt.Param("ops") {
+		case 0:
+			vrt.Assume(op <= 3) // the ring {Scale, Add, Sub, Mul}
+		case 1:
 			vrt.Assume(op == 1 || op == 3) // reduced alphabet {Add, Mul} for the longest programs
 		}
 		a := vrt.Concretize(vrt.Int(vrt.Nm(tag+"a", s), 0, n-1))
@@ -67,6 +70,14 @@ func c01Build(tag string, leaves []T, nodes []c01Node, K int) ([]T, []c01Node) {
 			for k := range nd.val {
 				nd.val[k] = ns[a].val[k] * ns[b].val[k]
 			}
+		case 4:
+			// an op whose operands reach the backward edges directly (no implicit Broadcast copy)
+			var c T
+			c, err = tensor.Concat([]T{ts[a], ts[b]}, 0)
+			if err == nil {
+				y, err = c.Slice([]tensor.Range{{From: 1, To: 3}})
+			}
+			nd.val[0], nd.val[1] = ns[a].val[1], ns[b].val[0]
 		}
 		if op != 0 {
 			nd.tracked = vrt.Or(ns[a].tracked, ns[b].tracked)
@@ -127,6 +138,13 @@ func c01Tape(ns []c01Node, root int) ([][]float64, []bool) {
 				}
 				if ns[nd.b].tracked {
 					adj[nd.b][k] += g * ns[nd.a].val[k]
+				}
+			case 4:
+				if k == 0 && ns[nd.a].tracked {
+					adj[nd.a][1] += g
+				}
+				if k == 1 && ns[nd.b].tracked {
+					adj[nd.b][0] += g
 				}
 			}
 		}
@@ -242,6 +260,34 @@ func H_C01_accum() {
 			vrt.AssertEqF("accum: gradients of graphs sharing only leaves add up", f[k], adj1[i][k]+adj2[i][k])
 		}
 	}
+	vrt.Reach("done")
+}
+
+// H_C01_seq: a graph is built and back-propagated, THEN a second graph is built over the same
+// untracked leaves (and fresh tracked ones) and back-propagated: an earlier back-propagation must not
+// disturb tensors it does not own (untracked leaves receive nothing and are not spent).
+func H_C01_seq() {
+	K := vrt.Param("steps")
+	u, ue := mk("u", []int{c01Width}, false) // shared untracked leaf
+	var firstLeaf T
+	for round := 0; round < 2; round++ {
+		x, xe := mk(vrt.Nm("x", round), []int{c01Width}, true) // fresh tracked leaf per round
+		if round == 0 {
+			firstLeaf = x
+		}
+		leaves := []T{x, u}
+		lnodes := []c01Node{{op: -1, tracked: true, val: xe}, {op: -1, tracked: false, val: ue}}
+		// both rounds run the same solver-chosen program shape (same decision names)
+		ts, ns := c01Build("p", leaves, lnodes, K)
+		root := len(ts) - 1
+		if !backprop("sequential graphs", ts[root]) {
+			return
+		}
+		adj, has := c01Tape(ns, root)
+		c01Check("sequential graphs", ts, ns, adj, has)
+		vrt.Assert("an untracked leaf is never spent by a back-propagation", !vrt.Dirty(u) && u.Gradient() == nil)
+	}
+	_ = firstLeaf
 	vrt.Reach("done")
 }
 
